@@ -338,7 +338,7 @@ def rand_jobs(ctx, n, depths):
 def run(ctx):
     import dask._task_spec  # noqa: F401 - before the worker processes are forked
     import dask.tokenize  # noqa: F401
-    deep = ctx.pick(250, 2000)
+    deep = ctx.pick(150, 2000)
     spec, cfg = ctx.model(ctx.spec("graph", "NodeEqMC.tla"), {"Deep": deep}, invariants=INVS)
     cases, _ = ctx.tlc_cases(spec, cfg, label="design+pairs:deep=%d" % deep, timeout=3000, seed=ctx.seed + 1, **TLC_OPTS)
     cases.sort(key=lambda c: H._sortkey([c["x"], c["y"], c["ed"]]))
@@ -349,8 +349,8 @@ def run(ctx):
     if n_same < 10 or n_same > len(cases) - 10:
         raise MachineryError("vacuous pair set: %d of %d pairs are semantically the same" % (n_same, len(cases)))
     jobs = [("enum", c, ctx.rng.randrange(1 << 30)) for c in cases]
-    jobs += rand_jobs(ctx, ctx.pick(6000, 20000), ctx.pick([2, 3], [2, 3, 4]))
-    triples, rnd = absorb(ctx, jobs, pmap(_work_any, jobs, chunk=128))
+    jobs += rand_jobs(ctx, ctx.pick(3000, 20000), ctx.pick([2, 3], [2, 3, 4]))
+    triples, rnd = absorb(ctx, jobs, pmap(_work_any, jobs, chunk=256))
     for c in cases[:1] + [c for c in cases if c["ed"] == "swap"][:2]:
         ctx.sample({"x": c["x"], "y": c["y"], "edit": c["ed"], "at": c["at"], "same": c["same"]})
     broken = [t for t in triples if t[2]]
